@@ -402,6 +402,7 @@ fn cfg_c08() -> RenderProp {
         shape: None,
         flavours: false,
         dynamic_load: false,
+        fixed_projects: None,
     }
 }
 
@@ -442,5 +443,6 @@ fn cfg_c07() -> RenderProp {
         shape: None,
         flavours: false,
         dynamic_load: false,
+        fixed_projects: None,
     }
 }
